@@ -861,6 +861,41 @@ Proof.
   rewrite (reserve_redis_decides c w (mkL true MExiting (rescue l)) now n s' ok eq_refl U S). reflexivity.
 Qed.
 
+(* F8': however LONG the outage was -- any number of clock steps, failed pings, requests served by
+   the rescue bucket, faults and replacements that leave PING unanswered -- the first answered ping
+   after the server is back hands the very next healthy call to Redis *)
+Lemma trun_app c evs1 : forall st evs2,
+  trun c st (evs1 ++ evs2) =
+    (fst (trun c (fst (trun c st evs1)) evs2), snd (trun c st evs1) ++ snd (trun c (fst (trun c st evs1)) evs2)).
+Proof.
+  induction evs1 as [|e r IH]; intros st evs2.
+  - cbn [app trun fst snd]. destruct (trun c st evs2); reflexivity.
+  - cbn [app trun]. destruct (tstep c st e) as [st' out]. rewrite IH.
+    destruct (trun c st' r) as [st1 o1]. cbn [fst snd]. destruct out; reflexivity.
+Qed.
+
+Lemma long_outage_recovers c evs w l now n :
+  alive l = false -> monitor l = MRunning -> ping_up w = false -> Forall no_pong evs ->
+  let st1 := fst (trun c (w, l) evs) in
+  let w1 := mkW (clock (fst st1)) (rstore (fst st1)) true true in
+  forall s' ok, script_of c w1 now n = Some (s', ok) ->
+  snd (trun c (w, l) (evs ++ [TFault true true; TPing; TAllow now n CtxOk])) =
+    rescue_only (c_rate c) (c_burst c) (rescue l) evs ++ [ok].
+Proof.
+  intros A M P F st1 w1 s' ok S.
+  destruct (outage_segment c evs w l A M P F) as (O1 & _ & O3).
+  assert (LI : linv l) by (unfold linv; rewrite A, M; split; reflexivity).
+  pose proof (trun_linv c evs (w, l) LI) as L1. fold st1 in O3, L1.
+  rewrite trun_app. cbn [snd]. rewrite O1. f_equal.
+  change (fst (trun c (w, l) evs)) with st1. subst w1. clearbody st1.
+  destruct st1 as [w' l']. cbn [fst snd] in *.
+  assert (M' : monitor l' = MRunning) by (apply L1; exact O3).
+  set (w2 := mkW (clock w') (rstore w') true true) in *.
+  cbn [trun tstep]. fold w2. rewrite (ping_recovers w2 l' M' eq_refl).
+  rewrite (reserve_redis_decides c w2 (mkL true MExiting (rescue l')) now n s' ok eq_refl eq_refl S).
+  reflexivity.
+Qed.
+
 (* F9: the server that answers again may be a FRESH instance (empty store, empty script cache):
    after its first answered ping the next healthy call is decided by a full bucket on the new
    server, and both bucket keys are written there *)
